@@ -67,6 +67,13 @@ fn registry() -> Vec<CheckDef>
 			case_timeout_ms: 30_000,
 			level_text: "the real token fuzzer is run under a scripted random number generator owned by the explorer: exhaustive over sequences of consecutive token kinds with the separator decision between them both ways at several positions, and over single and double deviations of every spelling draw inside each token kind over a grid of raw answers; every output is lexed by both real lexers",
 		},
+		CheckDef {
+			id: "C04",
+			drive: checks::c04::drive,
+			work: checks::c04::work,
+			case_timeout_ms: 20_000,
+			level_text: "exhaustive enumeration (up to renaming of labels) of all function bodies built from two labels, gotos, conditional gotos and nested blocks up to a size bound, each compiled by the real first-generation pipeline and judged against a reference label-scoping model: verdict, codes and the lines the diagnostics point at",
+		},
 	]
 }
 
